@@ -95,7 +95,7 @@ def generate(seed: int, tier: str) -> Dict[str, Any]:
             "state_style": r.choice(["dict", "dict", "attr", "attr"]), "registry": r.sample(["n4", "n1", "n3", "n2", "B", "a"], r.randint(2, 5)),
             "readers": sorted(a["id"] for a in agents if r.chance(0.3)),
             # a driver context that carries no turn id at all
-            "no_turn_id": r.chance(0.06)}
+            "no_turn_id": r.chance(0.06), "ctx_style": r.choice(["both", "both", "cfg_only"])}
 
 
 class _AState(dict):
@@ -203,6 +203,8 @@ def _contract_once(p: Dict[str, Any], mode: str, limit: Optional[int], stats: Di
             ctx = types.SimpleNamespace(cfg=cfg, config=cfg, turn_id=p["turn_id"], now_ms=E.T0_MS, now=E.iso_from_ms(E.T0_MS))
             if p.get("no_turn_id"):
                 del ctx.turn_id
+            if p.get("ctx_style") == "cfg_only":
+                del ctx.config   # the shape of the engine's own TurnCtx and of every caller in the tree: the configuration on ctx.cfg only
             store = _Store()
             state: Dict[str, Any] = (_AState if p.get("state_style") == "attr" else dict)(
                 {"store": store, "version_etag": "0", "graphs_by_agent": {}, "agents": {}})
